@@ -928,6 +928,10 @@ class PEval:
                         v = Str(v.cstr())
                     out.append(v)
                 return ('pair',) + tuple(out)
+        if t.replace('const ', '').startswith(('std::vector<', 'std::deque<')) and len(args) == 1:
+            v_ = self.ev(args[0], env, depth)
+            if isinstance(v_, VecL):
+                return v_            # copy / move construction of a container value
         if 'basic_string' in t:
             if not args:
                 return Str()
